@@ -1,7 +1,7 @@
 (* doctrans write-back: (1) in-place replacement of CST nodes, (2) the header re-print of
    cdd/shared/ast_cst_utils.py:maybe_replace_function_args, (3) the order of package calls and the file write in
    cdd/compound/doctrans.py:doctrans.  Definitions only. *)
-From CDD Require Import PyStr.
+From CDD Require Import PyStr DocSplit.
 Open Scope N_scope.
 
 (* (1) replacing the text of the nodes at given indices *)
@@ -81,3 +81,38 @@ Fixpoint find_cst_from (i : nat) (l : list cnode) (lineno : Z) (kind : str) (nam
   | c :: r => if cst_matches lineno kind name c then Some i else find_cst_from (S i) r lineno kind name
   end.
 Definition find_cst (l : list cnode) (lineno : Z) (kind : str) (name : option str) : option nat := find_cst_from O l lineno kind name.
+
+(* (6) maybe_replace_doc_str_in_function_or_class: insert / delete / replace the node after the def header *)
+Inductive edit := ENop | EInsertAfter (v : str) | EDeleteAfter | EReplaceAfter (v : str).
+
+Definition apply_edit (e : edit) (i : nat) (l : list str) : list str :=
+  match e with
+  | ENop => l
+  | EInsertAfter v => firstn (S i) l ++ v :: skipn (S i) l
+  | EDeleteAfter => firstn (S i) l ++ skipn (S (S i)) l
+  | EReplaceAfter v => firstn (S i) l ++ v :: skipn (S (S i)) l
+  end.
+
+Definition TQ : str := [34; 34; 34].
+Definition omit_whitespace (s : str) : str := filter (fun c => negb ((c =? SP) || (c =? NL) || (c =? 9))) s.
+Definition tab_len : Z := 4.
+
+(* formatted_doc_str: the text of the new docstring node, indented like the node that follows the header *)
+Definition formatted_doc_str (after_value doc : str) : str :=
+  let s0 := lstrip_chars [NL] after_value in
+  let ind := count_leading_space s0 in
+  let space := firstn ind s0 in
+  let prefix := slice s0 0 (Z.of_nat ind - tab_len) in
+  let body := rstrip (join [NL] (map (fun line => prefix ++ line) (split_char NL doc))) in
+  [NL] ++ space ++ TQ ++ body ++ [NL] ++ space ++ TQ.
+
+(* after = the node after the header: its text and whether it is a docstring-flagged triple-quoted node *)
+Definition doc_edit (new_doc : str) (after_value : str) (after_is_docstr : bool) : edit :=
+  match new_doc, after_is_docstr with
+  | [], false => ENop
+  | [], true => EDeleteAfter
+  | _, false => EInsertAfter (formatted_doc_str after_value new_doc)
+  | _, true =>
+      let cur := slice (strip after_value) 3 (-3) in
+      if str_eqb (omit_whitespace cur) (omit_whitespace new_doc) then ENop else EReplaceAfter (formatted_doc_str after_value new_doc)
+  end.
